@@ -378,6 +378,28 @@ Section Integrator.
   Definition approximating_intervals (s : st) : option (list nat) := done_leaves (get s 0).
   Definition handed (os : list out) : list X := concat (map fst os).
   Definition internal_error (e : err) : bool := match e with EInternal _ => true | _ => false end.
+
+  (* executable certificate: [S] is (as a set) the leaf set of a cover of interval
+     [i] -- either {i} or the union of covers of both children.  Evaluated on
+     approximating_intervals at every step of every correspondence case. *)
+  Fixpoint cov (fuel : nat) (s : st) (S : list nat) (i : nat) : option (list nat) :=
+    match fuel with
+    | 0 => None
+    | S fuel' =>
+        if nat_mem i S then Some [i] else
+        match children (get s i) with
+        | [l; r] => match cov fuel' s S l, cov fuel' s S r with
+                    | Some x, Some y => Some (x ++ y)
+                    | _, _ => None
+                    end
+        | _ => None
+        end
+    end.
+  Definition partition_cert (s : st) (S : list nat) : bool :=
+    match cov (length (ivs s)) s S 0 with
+    | Some L => forallb (fun k => nat_mem k L) S
+    | None => false
+    end.
 End Integrator.
 
 Arguments Ask {X}. Arguments Tell {X}.
